@@ -144,9 +144,13 @@ class Exec:
         return name
 
     # ------------------------------------------------------------------ entry points
-    def run(self, fi: FuncInfo, args: Optional[Dict[str, Term]] = None, self_cls: Optional[ClassInfo] = None) -> "Result":
-        """symbolically execute `fi` as an entry point; parameters are symbolic unless given"""
+    def run(self, fi: FuncInfo, args: Optional[Dict[str, Term]] = None, self_cls: Optional[ClassInfo] = None, setup=None) -> "Result":
+        """symbolically execute `fi` as an entry point; parameters are symbolic unless given
+        (`setup(state)` may allocate heap objects and return the argument binding)"""
         st = State()
+        if setup is not None:
+            args = dict(args or {})
+            args.update(setup(st))
         bind: Dict[str, Term] = {}
         a = fi.node.args
         names = [x for x in a.posonlyargs + a.args + a.kwonlyargs]
